@@ -425,7 +425,7 @@ Fixpoint tc (t : ty) (v : pyval) {struct t} : outcome pyval :=
         end
       else Reject
   | TUnion ms => first_ok (fun m => tc m v) ms
-  | TLiteral vals => if existsb (py_eqb v) vals then Ok v else Reject
+  | TLiteral vals => if existsb (lit_match v) vals then Ok v else Reject
   | TEnum n members =>
       match tc_enum_inner members v with
       | Ok x => guard S_enum_try (enum_lookup n members x)
@@ -767,7 +767,7 @@ Fixpoint ce (t : ty) (v : pyval) {struct t} : cres :=
       | ROk (Some ch) => CTree (ESum ch)
       | RRaise z => CEscape z
       end
-  | TLiteral vals => if existsb (py_eqb v) vals then CNone else wrong t v
+  | TLiteral vals => if existsb (lit_match v) vals then CNone else wrong t v
   | TEnum n members =>
       match tc_enum_inner members v with
       | Reject => ce_enum_inner members v
